@@ -463,6 +463,39 @@ def records(report, db):
         report.violation(R, 'record:all-slots', ci.path, ci.node,
                          ci.qualname, '_all_slots does not collect the '
                          '__slots__ of every class in the MRO')
+    if als is not None:
+        cls_name = als.params[0]
+        stores_ = set()
+        for n in ast.walk(als.node):
+            if isinstance(n, ast.Call) and ast.unparse(n.func) == 'setattr' \
+                    and n.args and ast.unparse(n.args[0]) == cls_name and \
+                    len(n.args) > 1 and isinstance(n.args[1], ast.Constant):
+                stores_.add(n.args[1].value)
+            if isinstance(n, ast.Attribute) and isinstance(
+                    n.ctx, ast.Store) and ast.unparse(n.value) == cls_name:
+                stores_.add(n.attr)
+        inherited = []
+        for n in ast.walk(als.node):
+            if isinstance(n, ast.Call) and ast.unparse(n.func) == 'getattr' \
+                    and n.args and ast.unparse(n.args[0]) == cls_name and \
+                    len(n.args) > 1 and isinstance(n.args[1], ast.Constant) \
+                    and n.args[1].value in stores_:
+                inherited.append(n)
+            if isinstance(n, ast.Attribute) and isinstance(
+                    n.ctx, ast.Load) and ast.unparse(n.value) == cls_name \
+                    and n.attr in stores_:
+                inherited.append(n)
+        if inherited:
+            report.violation(R, 'record:slots-cache', als.path, inherited[0],
+                             als.qualname, '_all_slots memoises its result '
+                             'on the class and reads it back through an '
+                             'inheriting lookup (%s): a subclass finds its '
+                             'parent\'s cached slots, so records of the '
+                             'subclass compare and hash on the parent\'s '
+                             'fields only' % ast.unparse(inherited[0]))
+        else:
+            report.ok(R, '_all_slots keeps no state that a subclass could '
+                      'inherit')
     vec = db.get_class(TUTIL, 'Vector')
     ops = {'__add__': '+', '__sub__': '-', '__mul__': '*',
            '__rmul__': '*', '__truediv__': '/', '__floordiv__': '//'}
